@@ -12,6 +12,8 @@ INVARIANT EnvironmentRule
 INVARIANT RepsFromEligibleOnly
 INVARIANT GroupsAccounted
 INVARIANT RelabelRule
+PROPERTY NeighboursIrrelevant
+PROPERTY RefreshIsEnvOf
 PROPERTY BlocksUntouched
 PROPERTY DisabledFreezes
 PROPERTY RefusalKeepsReps
